@@ -927,7 +927,7 @@ def array_cases(draw):
         case["T0"] = 273.15
         case["units"]["T0"] = draw(st.sampled_from(T_UNITS)) if units else "K"
     if fn == "water_permittivity":
-        kind = draw(st.sampled_from(["none", "scalar", "array"]))
+        kind = draw(st.sampled_from(["none", "scalar", "array", "array"]))
         if kind == "scalar":
             case["P"] = draw(log_uniform(-0.3, 3.0))
         elif kind == "array":
